@@ -79,8 +79,8 @@ func smallCorpus(r *drv.Run, phase string, maxLen, nGen, mutPer int) []*corpus.I
 func runC05(r *drv.Run) drv.Spec {
 	sp := drv.Spec{
 		Level: "exploration",
-		Rule: "cases = for each (decoder, input <= 8 KiB: valid, truncated, corrupted) one sweep over EVERY single split point of the source (and, for io_transformers, of the destination capacity), each chunked run compared with the one-shot run of the same compiled code on output bytes, final status, getters and (non-error finals) consumed count; plus seeded random multi-splits down to 1 byte on larger inputs; " +
-			"distinct = (decoder, axis, reference status, whether suspensions were taken, input class) tuples; evaluations counts individual chunked decodes",
+		Rule: "cases = for each (decoder, input <= 8 KiB: valid, truncated, corrupted) one sweep over EVERY single split point of the source (and, for io_transformers, of the destination capacity), each chunked run compared with the one-shot run of the same compiled code on output bytes, final status, getters and (non-error finals) consumed count; plus seeded random multi-splits down to 1 byte on larger inputs; plus generated coroutine programs (families that touch their streams only through `?` methods: randomly structured bodies with locals live across suspensions on if/else/loop/break/continue/nested-call paths, multi-byte reads and writes) accepted by the real checker, compiled by the real wuffs-c (ASan+UBSan and -O2), each run one-shot and under every single source split, every single capacity split, byte-by-byte and random multi-splits; " +
+			"distinct = (decoder, axis, reference status, whether suspensions were taken, input class) tuples, and (generated family/variant, resumed, final class) for the generated leg; evaluations counts individual chunked decodes plus generated programs",
 		Assumptions: []string{"single-split sweeps are exhaustive per input (every split point); inputs and multi-split plans are sampled", "ASan+UBSan build of the C generated from the working tree; image and token decoders are split in the source only"},
 		MinEvals:    2000, MinClasses: 30, Exhaustive: false,
 	}
@@ -231,6 +231,8 @@ func runC05(r *drv.Run) drv.Spec {
 			e.class(fmt.Sprintf("%s|multi|%s|resumed=%v", it.Kind, wd.Str(ro, "status"), susp))
 		}
 	}
+	// generated coroutine programs (liveness / scratch mechanisms of the code generator)
+	runProgs(r, "c05")
 	return sp
 }
 
